@@ -575,7 +575,7 @@ def main():
     n_gram = 6200 if thorough else 300
     n_mut = 2500 if thorough else 120
     n_wr = 1300 if thorough else 80
-    n_tok = 20000 if thorough else 1500
+    n_tok = 20000 if thorough else 1000
 
     # ---- grammar-derived files: cue-setting combinations in a shuffled enumeration -----------------------
     order = list(range(N_COMBOS)); rng.shuffle(order)
@@ -707,9 +707,11 @@ def main():
             if pairs is None or len(pairs) != len(sh):
                 broken.append((p, "S result not parsed: " + out[-400:])); continue
             for info, pr in zip(sh, pairs):
-                for clause, fnd in pr:
-                    if fnd == 0: s_fail.append((clause, info[0]))
-                    else: known_hits.setdefault(fnd, []).append((clause, info[0]))
+                for code, fnd in pr:
+                    clause, k = code % 1000, code // 1000        # clause + 1000 * index of the cue in the file
+                    inf = dict(info[0], cue_index=k)
+                    if fnd == 0: s_fail.append((clause, inf))
+                    else: known_hits.setdefault(fnd, []).append((clause, inf))
     C.clean_cases("Cases_C11_")
     n_eval = len(tok_cases) + 2 * len(gram_cases) + len(mut_cases) + 2 * len(wr_cases)
     run.log(f"Coq: {len(files)} case files; model/code mismatches {len(m_bad)}, S failures outside findings {len(s_fail)}, "
@@ -727,6 +729,7 @@ def main():
     def replay_of(info):
         d = dict(input_text=info["txt"], implementation=describe(info["o"]))
         if "f" in info: d["grammar_derivation"] = json.loads(json.dumps(info["f"], default=str))
+        if "cue_index" in info: d["failing_cue_index"] = info["cue_index"]; d["failing_cue"] = first_cue_line(info)
         if "cues" in info: d["cues_written"] = info["cues"]; d["writer_config"] = info["cfg"]
         d["how"] = "ttconv.vtt.reader.to_model(io.StringIO(input_text)); S = coq/Spec/VttSpec.v via Model/VttCases.v judge"
         return d
@@ -825,11 +828,16 @@ def main():
 
 
 def first_cue_line(info):
-    txt = info.get("txt", "")
-    for l in txt.split("\n"):
+    """the timing line and payload start of the cue the clause failed on (cue_index-th timing line of the file)"""
+    txt = info.get("txt", ""); k = info.get("cue_index", 0); pos = 0
+    lines = txt.split("\n")
+    if "f" in info:
+        want = [p_ts(b[1][1]) + " --> " + p_ts(b[1][2]) for b in info["f"][1] if b[0] == "cue"]
+        if k < len(want) and want[k] in txt:
+            i = txt.index(want[k]); return repr(txt[i:i + 160])
+    for l in lines:
         if "-->" in l:
-            i = txt.index(l)
-            return repr(txt[i:i + 160])
+            i = txt.index(l); return repr(txt[i:i + 160])
     return repr(txt[:120])
 
 
